@@ -129,7 +129,7 @@ func (requestBody *RequestBody) Validate(ctx context.Context, opts ...Validation
 	}
 
 	if vo := getValidationOptions(ctx); !vo.examplesValidationDisabled {
-		vo.examplesValidationAsReq, vo.examplesValidationAsRes = true, false
+		ctx = withExamplesValidatedAs(ctx, true)
 	}
 
 	if err := requestBody.Content.Validate(ctx); err != nil {
